@@ -505,17 +505,35 @@ impl<I: Ip> PeerMap<I> {
                     Self::Large(peer_map) => peer_map.insert(peer_map_key, peer),
                 }
 
-                if config.statistics.peer_clients && opt_removed_peer.is_none() {
-                    statistics_sender
-                        .try_send(StatisticsMessage::PeerAdded(request.peer_id))
-                        .expect("statistics channel should be unbounded");
+                if config.statistics.peer_clients {
+                    match opt_removed_peer {
+                        None => {
+                            statistics_sender
+                                .try_send(StatisticsMessage::PeerAdded(request.peer_id))
+                                .expect("statistics channel should be unbounded");
+                        }
+                        // Same address and port, but the peer changed its id:
+                        // retire the stored id and count the new one
+                        Some(removed_peer) if removed_peer.peer_id != request.peer_id => {
+                            statistics_sender
+                                .try_send(StatisticsMessage::PeerRemoved(removed_peer.peer_id))
+                                .expect("statistics channel should be unbounded");
+                            statistics_sender
+                                .try_send(StatisticsMessage::PeerAdded(request.peer_id))
+                                .expect("statistics channel should be unbounded");
+                        }
+                        Some(_) => (),
+                    }
                 }
             }
             PeerStatus::Stopped => {
-                if config.statistics.peer_clients && opt_removed_peer.is_some() {
-                    statistics_sender
-                        .try_send(StatisticsMessage::PeerRemoved(request.peer_id))
-                        .expect("statistics channel should be unbounded");
+                if config.statistics.peer_clients {
+                    // Report the id that was stored, which is what was counted
+                    if let Some(removed_peer) = opt_removed_peer {
+                        statistics_sender
+                            .try_send(StatisticsMessage::PeerRemoved(removed_peer.peer_id))
+                            .expect("statistics channel should be unbounded");
+                    }
                 }
             }
         };
